@@ -42,6 +42,8 @@ T = {
  'c17k': ('an IEEE/EFloat context obtained through with_params(rng=...) that keeps the format', 'C17 draw-count on the with_rng build route'),
  'c19n': ('an expression rule with one match nested inside a binding of another, where=None', 'C19 listed-site-not-rewritten (needed the root rw_c and the expression-granular where=None check)'),
  'c19o': ('split PEEL on a loop of static length below the factor, cursor into the loop body', 'C19 edit-log-miscounts'),
+ 'c18o': ("a second thread's first compile while the first thread is still inside make_namespace()'s first fill", 'C18 A3/H1 (exc:NameError) in stampede / derive runs'),
+ 'c18p': ('an evaluation that failed below a call earlier in the process (or two threads inside the same callee), then a nested call of that callee', 'C18 A3/H1 (exc:RuntimeError) in failure-mix and multi-thread runs'),
 }
 base = os.path.join(os.path.dirname(os.path.dirname(os.path.abspath(__file__))), 'seeded')
 for mid, (needs, caught) in T.items():
